@@ -120,7 +120,7 @@ CHECKS += [
     {
         "property_id": "C11", "engine": "symx", "category": "model_checking",
         "technique": "bounded relational symbolic execution: a long-lived Sampler/QuickSampler after every sequence of reconfigurations vs a fresh object with the same settings, symbolic old/new values so that z3 decides both sides of every cache comparison",
-        "text": "For all symbolic parameter values (old and new, equal or different) and every sequence of 2 reconfigurations out of 11 (incl. a moved herald and a PostSelection object edited in place) with or without an intermediate read: the long-lived object's distribution equals the fresh object's (same support, same values, same error if any), sampling after a change draws from the current distribution, sample() works without a prior read, an Analyzer result carries an error rate only when that call was given expected outputs, and a long-lived Analyzer gives what a fresh one gives after 1-2 of 7 reconfigurations (circuit reassigned with other heralds, loss or components added in place, post-selection reassigned or edited in place, parameter set).",
+        "text": "For all symbolic parameter values (old and new, equal or different) and every sequence of 2 reconfigurations out of 13 (incl. a moved herald, a moved output herald only, a source purity / indistinguishability change and a PostSelection object edited in place) with or without an intermediate read: the long-lived object's distribution equals the fresh object's (same support, same values, same error if any), sampling after a change draws from the current distribution, sample() works without a prior read, reading the distribution again after any sampling method gives what a fresh object gives (probability threshold raised so that Generator.choice's sum-to-one contract sends sample_N_inputs into its renormalising branch), an Analyzer result carries an error rate only when that call was given expected outputs, and a long-lived Analyzer gives what a fresh one gives after 1-2 of 7 reconfigurations (circuit reassigned with other heralds, loss or components added in place, post-selection reassigned or edited in place, parameter set).",
         "design_ref": "DESIGN.md section 4 C11", "note": SYMX_NOTE,
     },
 ]
